@@ -92,6 +92,7 @@ package db
 //@   ensures (err != nil || old(write_failed)) == write_failed
 //@ func (Bucket).Put
 //@   attr trusted
+//@   attr effect:store.put
 //@   requires write-in-tx: in_tx
 //@   modifies write_failed
 //@   ensures (err != nil || old(write_failed)) == write_failed
